@@ -45,26 +45,28 @@ ReqCsrOk(a, o) ==
   <<"C07.spki_eq_requester_key", o.spki.raw = a.key.spki>>,
   <<"C07.ext_request_iff_any_requested", Len(o.extReqs) = (IF WantExtReq(p) THEN 1 ELSE 0) + CallerExtReqs(a)
                                          /\ (WantExtReq(p) <=> x # <<>>)>>,
-  <<"C07.ku_iff_and_value", /\ Count(x, OidKu) = (IF WantKu(p) THEN 1 ELSE 0)
+  <<"C07.ku_iff_and_value", /\ Count(x, OidKu) = (IF WantKu(p) THEN 1 ELSE 0) + CustomCount(p, OidKu)
                             /\ WantKu(p) /\ Has(x, OidKu) =>
                                  Ext(x, OidKu).kind = "ku" /\ SeqRange(Ext(x, OidKu).bits) = SeqRange(p.ku)>>,
-  <<"C07.san_iff_and_value", /\ Count(x, OidSan) = (IF WantSan(p) THEN 1 ELSE 0)
+  <<"C07.san_iff_and_value", /\ Count(x, OidSan) = (IF WantSan(p) THEN 1 ELSE 0) + CustomCount(p, OidSan)
                              /\ WantSan(p) /\ Has(x, OidSan) =>
                                  Ext(x, OidSan).kind = "san" /\ Ext(x, OidSan).names = p.sans>>,
-  <<"C07.eku_iff_and_value", /\ Count(x, OidEku) = (IF WantEku(p) THEN 1 ELSE 0)
+  <<"C07.eku_iff_and_value", /\ Count(x, OidEku) = (IF WantEku(p) THEN 1 ELSE 0) + CustomCount(p, OidEku)
                              /\ WantEku(p) /\ Has(x, OidEku) =>
                                  Ext(x, OidEku).kind = "eku" /\ SeqRange(Ext(x, OidEku).oids) = SeqRange(p.eku)>>,
   <<"C07.custom_present_value_criticality",
+                             (* as in certificates: an extension of the caller's own is written as given, also next to a typed field's under the same OID *)
                              \A i \in DOMAIN p.custom :
-                               /\ Count(x, p.custom[i].oid) = 1
-                               /\ Ext(x, p.custom[i].oid).crit = p.custom[i].crit
-                               /\ Ext(x, p.custom[i].oid).raw = p.custom[i].content>>,
+                               /\ p.custom[i].oid \notin {OidKu, OidSan, OidEku} => Count(x, p.custom[i].oid) = CustomCount(p, p.custom[i].oid)
+                               /\ \E j \in DOMAIN x : /\ x[j].oid = p.custom[i].oid
+                                                       /\ x[j].crit = p.custom[i].crit
+                                                       /\ x[j].raw = p.custom[i].content>>,
   <<"C07.no_unrequested_ext", \A i \in DOMAIN x : x[i].oid \in
                                (IF WantSan(p) THEN {OidSan} ELSE {}) \cup (IF WantKu(p) THEN {OidKu} ELSE {}) \cup
                                (IF WantEku(p) THEN {OidEku} ELSE {}) \cup CustomOids(p)>>,
   <<"C07.attributes_byte_identical", SameAttrMultiset(a.attrs, o.attrs, IF WantExtReq(p) THEN 1 ELSE 0)>>,
   <<"C07.openssl_decodes", o.opensslOk>>,
-  <<"C07.x509parser_decodes", o.x509pOk>>,
+  <<"C07.x509parser_decodes", o.x509pOk \/ \E oid \in CustomOids(p) : Count(x, oid) > 1>>,
   <<"C05.csr_v0", o.version = 0>>,
   <<"C05.csr_attributes_present", o.attrsPresent>>,
   <<"C05.csr_at_most_one_ext_request", CallerExtReqs(a) = 0 => CountAttr(o.attrs, OidExtReq) <= 1 /\ Len(o.extReqs) <= 1>>,
@@ -73,7 +75,7 @@ ReqCsrOk(a, o) ==
   <<"C04.ku_minimal_named_bits", Has(x, OidKu) /\ WantKu(p) /\ Ext(x, OidKu).kind = "ku" =>
                                  Ext(x, OidKu).bs = NamedBits(SeqRange(p.ku))>>,
   <<"C04.custom_content_verbatim", \A i \in DOMAIN p.custom :
-                                 Has(x, p.custom[i].oid) => Ext(x, p.custom[i].oid).raw = p.custom[i].content>>,
+                                 Has(x, p.custom[i].oid) => \E j \in DOMAIN x : x[j].oid = p.custom[i].oid /\ x[j].raw = p.custom[i].content>>,
   <<"C04.no_trailing_bytes", ~o.trailing>>,
   <<"C01.sig_verifies_over_embedded_tbs", o.sigOk.ring \in {"ok", "na"} /\ o.sigOk.openssl = "ok">>,
   <<"C01.alg_is_registered_id", a.key.alg \in AlgNames => o.sigOuter.raw = SigAlgId(a.key.alg)>>,
